@@ -266,8 +266,9 @@ impl GetProvidersContext {
     pub fn next_action(&mut self) -> Option<QueryAction> {
         if self.is_done() {
             // If we cannot make progress, return the final result.
-            // A query failed when we are not able to find any providers.
-            if self.found_providers.is_empty() {
+            // A query failed when we are not able to find any providers, neither on the network
+            // nor in the local store.
+            if self.found_providers.is_empty() && self.config.known_providers.is_empty() {
                 Some(QueryAction::QueryFailed {
                     query: self.config.query,
                 })
